@@ -92,7 +92,9 @@ CLAIMED["C05"] = dict(
     ),
     note=(
         "Arrays returned by the discipline are not mutated (outside the statement). Tolerance runs keep inputs either well inside or far outside the "
-        "tolerance. Concurrent sharing of caches is decided under C13. Trusted: h5py, xxhash."
+        "tolerance. Families riding along: histories of the cache protocol itself (cache_outputs/cache_jacobian/look-up/clear/reopen, all cache types, "
+        "tolerance, inputs differing by size only, ten entries and more), every argument-free class of the discipline factory against an uncached twin, "
+        "a discipline with a large sparse Jacobian. Concurrent sharing of caches is decided under C13. Trusted: h5py, xxhash."
     ),
 )
 CLAIMED["C11"] = dict(
@@ -108,8 +110,10 @@ CLAIMED["C11"] = dict(
     ),
     note=(
         "The simulated dimension is the durable file across exports and restarts; no I/O error or torn write is injected (HDF5 promises nothing after one). "
-        "One-shot round trips 'for all design spaces/problems' and the CSV/text formats are pure functions of the object and only reached incidentally; "
-        "the reopen clause for discipline caches is decided under C05."
+        "Three smaller families ride along: solved problems (to_hdf/from_hdf with solution), generated design spaces (mixed types, per-component finite or "
+        "infinite bounds, missing current values, multi-character names; HDF root/nested node next to other data, CSV/text) and discipline caches re-instantiated "
+        "on their file (entries and listing order, ten entries and more). These round trips are mostly functions of the object: the simulator adds the file that "
+        "already holds other data and the reopen; they are sampled, not enumerated."
     ),
 )
 
@@ -138,15 +142,17 @@ CLAIMED["C20"] = dict(
     technique="deterministic simulation: objects of a run-time catalogue are sent across the process boundary (pickle, to_pickle/from_pickle, real fork) at a seeded moment of their life and both sides continue with the same operations; differential and isolation oracles",
     text=(
         "What the simulator owns is the moment at which an object crosses the process boundary and the transport. Each run picks an object from a catalogue "
-        "built at run time (7 discipline classes x 5 cache types x 2 grammar types, sequential/parallel/additive chains, the seven MDA classes, MDO/DOE "
+        "built at run time (7 discipline classes x 5 cache types x 2 grammar types, every class of the discipline factory that can be instantiated without "
+        "argument (26, discovered at run time), ten wrapper classes built with arguments, sequential/parallel/additive chains, the seven MDA classes, MDO/DOE "
         "scenarios with three formulations, linear/quadratic/composed functions, a design space, two problems at three moments), drives a tape-chosen prefix "
-        "of executions/linearisations, serialises it (pickle in process, to_pickle/from_pickle through a file, or a real forked child that unpickles and "
-        "continues), runs the same suffix on original and restored object and compares outputs, Jacobians, grammars, defaults, counters and results; then "
+        "of executions/linearisations/grammar edits, serialises it (pickle in process, to_pickle/from_pickle through a file, a real forked child that unpickles "
+        "and continues, or a fresh interpreter started with another PYTHONHASHSEED that receives only the bytes), runs the same suffix on original and restored object and compares outputs, Jacobians, grammars, defaults, counters and results; then "
         "mutates the restored side and checks the original is unaffected (and that an HDF5 cache stays attached to its file)."
     ),
     note=(
-        "Classes needing external tools are not in the catalogue; iterative processes are compared to 1e-6. The serialise-and-continue operation also runs "
-        "inside the C05 machine (discipline with SimpleCache/HDF5Cache)."
+        "Classes needing external tools are not in the catalogue; iterative processes are compared to 1e-6; what an original object raises is part of its "
+        "behaviour (original and restored must raise alike). The serialise-and-continue operation also runs inside the C05 machine (discipline with "
+        "SimpleCache/HDF5Cache)."
     ),
 )
 
